@@ -1601,6 +1601,7 @@ class TaskScenario(ScenarioData):
             and self.slotStartOffset > 0
             and self.doneEffort == 0
             and self.currentSlotIdx == self._offsetSlotIdx
+            and resource.leaf()  # a group has no time of its own that could be used up
         ):
             # Mark the offset portion as used (by predecessor task)
             current_used = res_scenario.slotSecondsUsed.get(self.currentSlotIdx, 0.0)
